@@ -50,7 +50,8 @@ class Runner:
 
     def __init__(self, variant, n):
         self.variant = variant
-        self.world, self.Meta, self.hx = build_world("_%d" % n if variant in ("global", "encoder") else "")
+        self.world, self.Meta, self.hx = build_world("_%d" % n if variant in ("global", "encoder", "rule") else "")
+        self.rules = {}
         self.nreg = 0
         if variant in ("cache", "nocache"):
             from utype.utils.base import TypeRegistry
@@ -61,7 +62,7 @@ class Runner:
             self.base = TypeRegistry("verif-base", cache=True)
             self.reg = TypeRegistry("verif", cache=True, base=self.base)
             self.nbase = 0
-        elif variant == "global":
+        elif variant in ("global", "rule"):
             import utype
             self.reg = utype.TypeTransformer.registry
         elif variant == "encoder":
@@ -78,7 +79,7 @@ class Runner:
         if self.variant == "encoder":
             def fn(o, _k=k):
                 return ["fn", _k]
-        elif self.variant == "global":
+        elif self.variant in ("global", "rule"):
             def fn(trans, data, t, _k=k):
                 return ("fn", _k)
         else:
@@ -94,7 +95,7 @@ class Runner:
         if st["meta"] != "none":
             kw["metaclass"] = self.Meta
         classes = [self.world[c] for c in st["cls"]]
-        if self.variant == "global":
+        if self.variant in ("global", "rule"):
             import utype
             utype.register_transformer(*classes, allow_subclasses=st["allow"], priority=st["prio"], **kw)(fn)
         elif self.variant == "encoder":
@@ -107,6 +108,16 @@ class Runner:
 
     def resolve(self, t):
         T = self.world[t]
+        if self.variant == "rule":
+            # the type is used through a constrained subclass of it (class TR(T, Rule)), declared at its first use
+            import utype
+            if t not in self.rules:
+                self.rules[t] = type(T.__name__ + "Rule", (T, utype.Rule), {})
+            try:
+                r = utype.type_transform("x", self.rules[t])
+            except Exception:
+                return 0
+            return r[1] if isinstance(r, tuple) and r and r[0] == "fn" else -1
         if self.variant == "global":
             import utype
             try:
@@ -252,6 +263,12 @@ def main():
                        "results": [s["fn"] for s in steps if s["op"] == "res"]})
         if nontrivial(ops):
             ck.keys.add(shape(ops))
+    # a type used through a Rule subclass of it: one fixed history (known finding: the subclass keeps the converter it was created with)
+    a0 = {"op": "reg", "cls": ["A"], "allow": False, "prio": 0, "attr": "none", "meta": "none", "det": "none"}
+    n += 1
+    wrec = {"id": "c16-rule-%d" % n, "variant": "rule", "src": "witness", "steps": run_history([a0, {"op": "res", "t": "A"}, a0, {"op": "res", "t": "A"}], "rule", n)}
+    recs[wrec["id"]] = (wrec, [])
+    by_cfg["TRUE"].append(wrec)
     # ---- 4. TLC judges ------------------------------------------------------------------------------
     for c, rs in by_cfg.items():
         r = tlc.judge("Trace_Registry", "Trace_Registry_%s.cfg" % c, rs, workers=8)
@@ -262,6 +279,10 @@ def main():
         ck.judged(len(rs))
         for t in r.tagged("VIOL"):
             rec, ops = recs[t[1]]
+            if rec["variant"] == "rule":
+                ck.violation("C16|P_C16|rule-subclass-keeps-the-converter-it-was-created-with", t[2],
+                             {"variant": "rule", "steps": rec["steps"], "failing_step": t[3], "shape": shape(rec["steps"])})
+                continue
             ck.violation(abstract_key(rec["steps"], t[3], rec["variant"]), t[2], {"variant": rec["variant"], "steps": rec["steps"],
                                                                  "failing_step": t[3], "shape": shape(rec["steps"])})
         divs = r.tagged("DIV")
